@@ -42,6 +42,9 @@ def halphabet(tier):
         {"s": A, "op": "append", "m": "INBOX", "cid": "longcid0000000000000000000000000000000000000001"},
         {"s": "env", "op": "deliver", "m": "INBOX"},
         {"s": "env", "op": "poll", "dt": 21.0},
+        # every message leaves at once without an EXPUNGE (the numbering starts again at 1), messages are parsed before they go
+        {"s": A, "op": "rename", "m": "INBOX", "to": "old"},
+        {"s": A, "op": "fetch", "set": "1:*", "items": "(BODY.PEEK[HEADER.FIELDS (SUBJECT)])"},
     ]
 
 
